@@ -45,7 +45,7 @@ CLAIMS.update({
 CLAIMS.update({
  "C01": ("CFG must-pass-through (vertex-cut) analysis of per-fork block pipelines against frozen spec stage tables, plus error-flow, argument-order, limit and view-shape rules on the block path",
          "Structural: the composition of the block transition (which sub-transitions, which fork variant, dependent order, error propagation, signature-before/root-after) is the spec's for every fork; exhaustive over paths of the pipeline functions. Necessary conditions of spec equality, not arithmetic equality.",
-         "Stage tables, the comparison table (cmp.spec, 210 entries) and the formula table (formula.spec, 174 entries) are transcribed/reviewed against consensus-specs v1.5.0-beta.2; comparisons and assignments outside those tables, and the numeric range of every quantity, are not decided.", "DESIGN.md §3 C1-C3,B1,B7,C7,C10; §9"),
+         "Stage tables, the comparison table (cmp.spec, 236 entries) and the formula table (formula.spec, 206 entries) are transcribed/reviewed against consensus-specs v1.5.0-beta.2; comparisons and assignments outside those tables, and the numeric range of every quantity, are not decided.", "DESIGN.md §3 C1-C3,B1,B7,C7,C10; §9"),
  "C02": ("CFG ordering analysis of the slot loop and per-fork epoch pipelines + upgrade carry-over tracing",
          "Structural: slot loop order, epoch stage sets/variants/dependent order, upgrade dispatch and field carry-over are the spec's on every path. Necessary conditions; epoch arithmetic is not decided.",
          "Stage, comparison and formula tables transcribed/reviewed against the spec; arithmetic outside the 174 tabled assignments and overflow behaviour are not decided.", "DESIGN.md §3 C1,C3,C7,A8,D2"),
